@@ -53,8 +53,7 @@ Proof. exact size0_not_roundtrip. Qed.
 
 (* Decode of ANY text into a well-formed archive: total (no panic), keeps the invariant, accepts exactly the
    texts with one ParseUint-able entry per word, then holds the parsed words cut to the size (garbage in the
-   unused high bits is cleared); a rejected text leaves the memo, and -- unless some words had already been
-   overwritten -- the words as they were *)
+   unused high bits is cleared); a rejected text changes nothing *)
 Theorem C09_decode_total : forall a s, wf a ->
   exists a', decode a s = Ok (a', decode_accepts (List.length (a_words a)) s)
     /\ wf a' /\ a_size a' = a_size a
@@ -62,10 +61,15 @@ Theorem C09_decode_total : forall a s, wf a ->
           a_memo a' = EmptyString
           /\ exists vs, map Some vs = map parse_uint_hex64 (split_colon s)
                         /\ forall j, j < a_size a -> bit_at (a_words a') j = bit_at vs j)
-    /\ (decode_accepts (List.length (a_words a)) s = false ->
-          a_memo a' = a_memo a
-          /\ (decode_is_partial (List.length (a_words a)) s = false -> a_words a' = a_words a)).
+    /\ (decode_accepts (List.length (a_words a)) s = false -> a' = a).
 Proof. exact decode_spec. Qed.
+
+(* A text that Decode rejects (wrong number of entries, or an entry ParseUint refuses -- wherever it stands)
+   leaves the archive exactly as it was: words, memo, size.  For EVERY archive, even an ill-formed one.
+   (Before fix C09-1 the entries preceding the bad one had already been stored.) *)
+Theorem C09_rejected_decode_leaves_archive_unchanged : forall a s,
+  decode_accepts (List.length (a_words a)) s = false -> decode a s = Ok (a, false).
+Proof. exact decode_rejected_unchanged. Qed.
 
 (* ---------------------------------------------------------------------------------------------- *)
 (** 3. Canonical: on archives of one size, equal encodings <-> equal bit vectors. *)
@@ -88,21 +92,19 @@ Proof. exact reachable_wf. Qed.
 (** 4. The memoised encoding is sound over histories. *)
 
 (* After ANY sequence of SetValue (any index, any value; the panicking ones change nothing), Encoding() and
-   Decode (any text except one that is rejected after it has overwritten some words -- see below) on New(n),
-   Encoding() answers the encoding of the bits held at that moment. *)
-Theorem C09_cache_sound : forall n ops, forallb (op_not_partial_decode (nwords n)) ops = true ->
+   Decode (any text, accepted or rejected) on New(n), Encoding() answers the encoding of the bits held at that
+   moment.  No hypothesis on the history. *)
+Theorem C09_cache_sound : forall n ops,
   let a := run (new_archive n) ops in
   snd (encoding a) = encode_words (a_words a) /\ wf a /\ a_size a = n.
 Proof. exact cache_sound. Qed.
 
-(* The excluded history is real: a Decode rejected at its second entry has already overwritten the first word
-   and returns without resetting the memo.  crem never re-encodes such an archive (v1modelHandler drops it,
-   SolutionPool.AddSolution ignores the error but never calls Encoding() on it), so this is outside C09's
-   quantifier; it is stated so that the hypothesis above cannot be mistaken for a convenience. *)
-Theorem C09_memo_stale_after_rejected_decode : exists n ops,
-  let a := run (new_archive n) ops in
-  snd (encoding a) <> encode_words (a_words a).
-Proof. exact memo_stale_after_rejected_decode. Qed.
+(* Regression of the defect repaired by fix C09-1: this history was the witness of a stale memo (Decode rejected
+   at its second entry had stored the first word and kept the memo "0:0" while holding [1; 0]). *)
+Example C09_rejected_decode_regression :
+  let a := run (new_archive 65) [OpEncode; OpDecode "1:zz"; OpEncode] in
+  snd (encoding a) = "0:0"%string /\ encode_words (a_words a) = "0:0"%string /\ a_words a = [0%N; 0%N].
+Proof. exact rejected_decode_regression. Qed.
 
 (* ---------------------------------------------------------------------------------------------- *)
 (** 5. The action order is a deterministic function of the data. *)
@@ -170,13 +172,13 @@ Example C09_example_decode_not_injective :
   /\ decode (new_archive 3) "FD" = decode (new_archive 3) "5".
 Proof. vm_compute. repeat split; reflexivity. Qed.
 
-(* a history that meets the hypothesis of C09_cache_sound: mutations after a memoised Encoding(), a failed and a
-   successful Decode, an out-of-range and a negative index *)
+(* a history with mutations after a memoised Encoding(), rejected Decodes (at the first and at the second entry),
+   a successful Decode, an out-of-range and a negative index *)
 Example C09_example_history :
-  let ops := [OpSet 0 true; OpEncode; OpSet 64 true; OpSet 65 true; OpSet (-1) true; OpEncode; OpDecode "zz:1";
-              OpDecode "ffffffffffffffff:ff"; OpEncode; OpSet 3 false] in
-  forallb (op_not_partial_decode (nwords 65)) ops = true
-  /\ snd (encoding (run (new_archive 65) ops)) = "FFFFFFFFFFFFFFF7:1"%string.
+  let ops := [OpSet 0 true; OpEncode; OpSet 64 true; OpSet 65 true; OpSet (-1) true; OpEncode; OpDecode "zz:1"; OpDecode "1:zz";
+              OpEncode; OpDecode "ffffffffffffffff:ff"; OpEncode; OpSet 3 false] in
+  snd (encoding (run (new_archive 65) ops)) = "FFFFFFFFFFFFFFF7:1"%string
+  /\ snd (encoding (run (new_archive 65) (firstn 9 ops))) = "1:1"%string.
 Proof. vm_compute. split; reflexivity. Qed.
 
 (* the catchment action types, gathered in two orders *)
@@ -221,11 +223,11 @@ Print Assumptions C09_build_is_packing.
 Print Assumptions C09_roundtrip.
 Print Assumptions C09_roundtrip_any_target.
 Print Assumptions C09_decode_total.
+Print Assumptions C09_rejected_decode_leaves_archive_unchanged.
 Print Assumptions C09_canonical.
 Print Assumptions C09_canonical_wf.
 Print Assumptions C09_reachable_well_formed.
 Print Assumptions C09_cache_sound.
-Print Assumptions C09_memo_stale_after_rejected_decode.
 Print Assumptions C09_order_deterministic.
 Print Assumptions C09_any_sort_agrees.
 Print Assumptions C09_transfer.
